@@ -840,6 +840,13 @@ func range_(thread *Thread, b *Builtin, args Tuple, kwargs []Tuple) (Value, erro
 		return nil, nameErr(b, "step argument must not be zero")
 	}
 
+	// Invariant: |stop - start| fits in an int64 whenever the range is non-empty,
+	// so that differences of elements (and hence the length and slice steps) cannot overflow.
+	if (step > 0 && stop > start && uint64(stop)-uint64(start) > math.MaxInt64) ||
+		(step < 0 && start > stop && uint64(start)-uint64(stop) > math.MaxInt64) {
+		return nil, nameErr(b, "range too large (stop - start must fit in a signed 64-bit integer)")
+	}
+
 	return rangeValue{start: start, stop: stop, step: step, len: rangeLen(start, stop, step)}, nil
 }
 
@@ -866,11 +873,12 @@ func rangeLen(start, stop, step int) int {
 	switch {
 	case step > 0:
 		if stop > start {
-			return (stop-1-start)/step + 1
+			return int((uint64(stop)-uint64(start)-1)/uint64(step)) + 1
 		}
 	case step < 0:
 		if start > stop {
-			return (start-1-stop)/-step + 1
+			// uint64(-(step+1))+1 == -step without overflow for step == MinInt64
+			return int((uint64(start)-uint64(stop)-1)/(uint64(-(step+1))+1)) + 1
 		}
 	default:
 		panic("rangeLen: zero step")
@@ -879,15 +887,24 @@ func rangeLen(start, stop, step int) int {
 }
 
 func (r rangeValue) Slice(start, end, step int) Value {
-	newStart := r.start + r.step*start
-	newStop := r.start + r.step*end
-	newStep := r.step * step
-	return rangeValue{
-		start: newStart,
-		stop:  newStop,
-		step:  newStep,
-		len:   rangeLen(newStart, newStop, newStep),
+	// start, end lie within [-1, r.len]; n is the number of selected elements.
+	n := rangeLen(start, end, step)
+	if n == 0 {
+		return rangeValue{step: 1} // the empty range
 	}
+	// The first and last selected elements are elements of r,
+	// so they and (for n > 1) their distance newStep*(n-1) are representable.
+	newStart := r.start + r.step*start
+	newStep := 1
+	if n > 1 {
+		newStep = r.step * step
+	}
+	last := newStart + (n-1)*newStep
+	newStop := last + 1
+	if newStep < 0 {
+		newStop = last - 1
+	}
+	return rangeValue{start: newStart, stop: newStop, step: newStep, len: n}
 }
 
 func (r rangeValue) Freeze() {} // immutable
